@@ -40,21 +40,18 @@ def routing(res):
     n = 0
     sinks = []
     for name, bodies in E.prog.bodies.items():
-        if not re.search(r"utils::json::<impl at src/utils/json\.rs:[^>]*>::(member_str|member_raw|array_str|array_raw|member_key|\w*str\w*)$", name):
+        m = re.search(r"<impl at src/utils/json\.rs:[^>]*>::(member_str|array_str|append_key)$", name)
+        if not m:
             continue
         for b in bodies:
             b.parse()
-            txt = "\n".join(s for blk in b.blocks.values() for s in blk["stmts"])
-            takes_display = any("impl std::fmt::Display" in t or "impl Display" in t or "&str" in t for _, t in b.args)
-            if not takes_display:
-                continue
-            sinks.append(name.split("::")[-1])
+            txt = "\n".join(st for blk in b.blocks.values() for st in blk["stmts"])
+            sinks.append(m.group(1))
             n += 1
-            quoted = '\\"' in txt or "json_str" in txt
-            if re.search(r"(member_str|array_str|_str)$", name) and "json_str" not in txt:
-                res.violation("mir:json-sink-unescaped:" + name.split("::")[-1],
-                              "JsonBuilder::%s writes a string without json_str" % name.split("::")[-1],
-                              mprop.write_cex(res, "sink_" + name.split("::")[-1], mir.Path(mir.State(), {}, "static"), E, "no json_str call in " + name))
+            if not re.search(r"json_str::<", txt):
+                res.violation("mir:json-sink-unescaped:" + m.group(1),
+                              "JsonBuilder::%s writes a quoted string without json_str" % m.group(1),
+                              mprop.write_cex(res, "sink_" + m.group(1), mir.Path(mir.State(), {}, "static"), E, "no json_str call in " + name))
     lb = E.prog.find("src/http/metrics.rs", "LabelValue", "label")
     txt = "\n".join(s for blk in lb.blocks.values() for s in blk["stmts"])
     n += 1
@@ -63,6 +60,6 @@ def routing(res):
                       mprop.write_cex(res, "label_unescaped", mir.Path(mir.State(), {}, "static"), E, "LabelValue::label formats the raw value"))
     res.samples.append({"json_string_sinks": sinks})
     res.distinct += n
-    if n < 3:
+    if n < 4:
         res.inconclusive.append("routing check found only %d sinks" % n)
     mprop.finish_engine(res, E)
